@@ -46,6 +46,24 @@ pub fn check(case: &Case) -> Outcome {
         let keys: Vec<u16> = (0..rc.rules.len()).map(|_| sm.next() as u16).collect();
         others.push(build_router(&rc.config, &shuffled(&rc.rules, &keys)));
     }
+    // round 4: one more insertion order with a cache warm-up between two insertions (rules loaded, warm-up, rule update)
+    {
+        let keys: Vec<u16> = (0..rc.rules.len()).map(|_| sm.next() as u16).collect();
+        let order = shuffled(&rc.rules, &keys);
+        let at = (sm.next() as usize) % (order.len() + 1);
+        let limit = [None, Some(1u64), Some(3), Some(1000)][(sm.next() % 4) as usize];
+        let mut r = redirectionio::router::Router::<redirectionio::api::Rule>::from_config(rc.config.to_lib());
+        for (i, rule) in order.iter().enumerate() {
+            if i == at {
+                r.cache(limit);
+            }
+            r.insert(rule.to_lib());
+        }
+        if at == order.len() {
+            r.cache(limit);
+        }
+        others.push(r);
+    }
     let by_id: HashMap<&str, &RuleSpec> = rc.rules.iter().map(|r| (r.id.as_str(), r)).collect();
     for q in &rc.requests {
         let req = q.build(&router.config);
@@ -129,7 +147,7 @@ pub fn run(ctx: &Ctx) -> Report {
     let mut rep = Report::new(
         "C11",
         "case = router over the C01 pools with ranks in {0,1} (heavy ties) and conflicting effects, 4..6 requests, a permutation seed; oracle = serde_json(Action::from_routes_rule(pi(match), q)) is one constant string for all permutations pi of the matched routes \
-         (all n! for n<=4, 30 seeded ones above) and for 3 routers rebuilt with shuffled insertion orders, and its effects equal the reference fold in (rank desc, id desc) order; \
+         (all n! for n<=4, 30 seeded ones above) and for 4 routers rebuilt with shuffled insertion orders (one of them with a cache warm-up between two insertions), and its effects equal the reference fold in (rank desc, id desc) order; \
          non-trivial = a request matched >=2 rules of equal rank with different effects; distinct by case hash",
     );
     rep.assume("sampling disabled (the statement excludes it); hash-map iteration order cannot be driven directly: it is re-seeded by every router rebuild and the match order is permuted explicitly");
